@@ -1,7 +1,13 @@
-(* C11Witness.v -- known finding: when the first segment ends inside the protocol
-   signature, the request is lost. "GE" | "T / HTTP/1.0\n\n" is never answered
-   although the same stream in one segment is. Computed on the current tables. *)
+(* C11Witness.v -- the per-run obligation of the stream statements on the current tables, and
+   replays.  Former finding (class short_first_segment): when the first segment ended inside
+   the protocol signature the request was lost: "GE" | "T / HTTP/1.0\n\n" was never answered
+   although the same stream in one segment was.  proto::repl now keeps the bytes of a flow
+   until its protocol is identified (at most PENDING_MAX) and starts the handler on the whole
+   stream so far: the same cuts are answered.  Computed on the current tables. *)
 From MS Require Import Proto Spec.AppView Spec.C11 Instance.
+
+Lemma current_proto_tbl_ok : proto_tbl_ok the_env = true.
+Proof. vm_compute. reflexivity. Qed.
 
 Definition w11_clk : clock := {| clk_date := [68]; clk_filetime := 0 |}.
 Definition w11_ci : cinfo :=
@@ -13,8 +19,29 @@ Definition w11_stream : bytes := [71; 69; 84; 32; 47; 32; 72; 84; 84; 80; 47; 49
 Definition answered (o : res (list (option bytes))) : bool :=
   match o with Ok l => existsb (fun x => match x with Some _ => true | None => false end) l | Panic _ => false end.
 
-Theorem refuted_short_first_segment :
+(* one byte per segment *)
+Definition singletons (s : bytes) : list bytes := map (fun b => [b]) s.
+
+Definition payloads (o : res (list (option bytes))) : list bytes :=
+  match o with Ok l => flat_map (fun x => match x with Some d => [d] | None => [] end) l | Panic _ => [] end.
+
+(* the stream in one segment, cut inside the signature, and one byte per segment: answered
+   alike, with the same single payload, by the segment that completes the request *)
+Theorem short_first_segment_answered :
   answered (tcp_stream the_env w11_clk w11_ci tcb_new [w11_stream]) = true /\
-  answered (tcp_stream the_env w11_clk w11_ci tcb_new [firstn 2 w11_stream; skipn 2 w11_stream]) = false /\
-  concat [firstn 2 w11_stream; skipn 2 w11_stream] = w11_stream.
+  answered (tcp_stream the_env w11_clk w11_ci tcb_new [firstn 2 w11_stream; skipn 2 w11_stream]) = true /\
+  concat [firstn 2 w11_stream; skipn 2 w11_stream] = w11_stream /\
+  payloads (tcp_stream the_env w11_clk w11_ci tcb_new [firstn 2 w11_stream; skipn 2 w11_stream]) =
+  payloads (tcp_stream the_env w11_clk w11_ci tcb_new [w11_stream]) /\
+  payloads (tcp_stream the_env w11_clk w11_ci tcb_new (singletons w11_stream)) =
+  payloads (tcp_stream the_env w11_clk w11_ci tcb_new [w11_stream]) /\
+  length (payloads (tcp_stream the_env w11_clk w11_ci tcb_new [w11_stream])) = 1%nat /\
+  (exists outs, tcp_stream the_env w11_clk w11_ci tcb_new (singletons w11_stream) = Ok outs /\
+                firstn 15 outs = repeat None 15 /\ nth 15 outs None <> None).
+Proof. vm_compute. repeat split; try reflexivity. eexists. repeat split; discriminate. Qed.
+
+(* the hypotheses of the stream theorems hold of this stream *)
+Theorem w11_identified :
+  bytes_ok w11_stream = true /\ tcp_first_id the_env w11_stream = Some PROTO_HTTP /\
+  tcp_first_id the_env (firstn 2 w11_stream) = None.
 Proof. vm_compute. repeat split; reflexivity. Qed.
